@@ -453,6 +453,28 @@ def c13(run):
     scs = [F.trans_scenario(s, "mc-trans") for s in hist_model(run, "trans", 1, "core", "all", "rich")]
     run.add(scs)
     run.add(F.random_perturbations(run.rng, 200 if q else 3000))
+    # a file that imports one simple name from two packages, next to files that import only one of them: what the
+    # neighbours import (or how often validation ran) must not influence which import the name resolves to
+    S = "package s;\nimport a.Foo;\nimport b.Foo;\ninterface S {\n  void f(in Foo x, in List<Foo> y);\n}\n"
+    Ns = ["package n;\nimport b.Foo;\ninterface N {\n  void g(in Foo x);\n}\n",
+          "package n;\nimport a.Foo;\ninterface N {\n  void g(in Foo x);\n}\n",
+          "package n;\ninterface N {\n  void g();\n}\n",
+          "package n;\nimport b.Foo;\nimport a.Foo;\ninterface N {\n  Foo g();\n}\n"]
+    defs = [("da", "package a;\nparcelable Foo {\n  int x;\n}\n"), ("db", "package b;\ninterface Foo {\n  void p();\n}\n")]
+    for rep in range(3 if q else 20):
+        order = list(range(len(Ns)))
+        run.rng.shuffle(order)
+        ops = [{"op": "new", "i": 1}]
+        for id_, t in defs:
+            ops.append({"op": "add", "i": 1, "id": id_, "text": t})
+        ops.append({"op": "add", "i": 1, "id": "s", "text": S})
+        for k in order:
+            ops.append({"op": "add", "i": 1, "id": "n", "text": Ns[k]})
+            ops.append({"op": "validate", "i": 1})
+            ops.append({"op": "validate", "i": 1})
+        ops.append({"op": "remove", "i": 1, "id": "n"})
+        ops.append({"op": "validate", "i": 1})
+        run.add([{"sid": "", "src": "ambiguous-imports-neighbours", "ops": ops}])
     run.rule = ("TLC enumerates every transition (from, op, to) of MC_Hist in 'trans' mode over 2 (quick) / 3 (thorough) ids x 8 "
                 "contents (two importers of p.B and q.C, two bodies of parcelable p.B, enum p.B, interface q.C, an unrelated "
                 "file, a malformed text) and checks Locality on the model; each transition is replayed with a full "
@@ -982,6 +1004,31 @@ def c14(run):
         g = [lex[run.rng.choice(voc)] for _k in range(run.rng.randint(3, 12))]
         scs2 = recovery_scenario(frames[slot]["pre"], g, frames[slot]["suf"], run.rng, run.rng.choice(["spaces", "mixed"]), f"rnd-rec-{slot}")
         run.add([scs2])
+    # garbage that opens an annotation parenthesis: `@A (` + every string of 1-2 further tokens (the terminator may be
+    # taken for a parameter separator; recovery inside the parentheses must not swallow siblings)
+    for slot in sorted(frames):
+        bad = {",", "{", "}"} if slot.startswith("re") else {";", "{", "}"}
+        voc = [v for v in sorted(lex) if v not in bad]
+        tails = [[a] for a in voc] + ([[a, b] for a in voc for b in voc] if (not q or slot in ("re1", "ri1", "rp1")) else [])
+        for t in tails:
+            g = [lex["ANNOTATION"], lex["("]] + [lex[v] for v in t]
+            run.add([recovery_scenario(frames[slot]["pre"], g, frames[slot]["suf"], run.rng, "spaces", f"annparen-rec-{slot}")])
+    # garbage that looks like members: a complete member without its terminator followed by the start of another one
+    # (the parser can resume without dropping a token: the Error must still be reported)
+    imem = [["VOID", "IDENT", "(", ")"], ["PRIMITIVE", "IDENT", "(", "DIRECTION", "PRIMITIVE", "IDENT", ")"], ["CONST", "PRIMITIVE", "IDENT", "=", "INTEGER"],
+            ["ONEWAY", "VOID", "IDENT", "(", ")", "=", "INTEGER"], ["IDENT", "IDENT"], ["PRIMITIVE", "IDENT"]]
+    pmem = [["PRIMITIVE", "IDENT"], ["STRING", "IDENT", "=", "QUOTED_STRING"], ["CONST", "PRIMITIVE", "IDENT", "=", "INTEGER"], ["IDENT", "IDENT"],
+            ["LIST", "<", "STRING", ">", "IDENT"]]
+    emem = [["IDENT"], ["IDENT", "=", "INTEGER"], ["ANNOTATION", "IDENT"], ["IDENT", "=", "QUOTED_STRING"]]
+    for slot in sorted(frames):
+        pool = emem if slot.startswith("re") else (pmem if slot.startswith("rp") else imem)
+        for a_ in pool:
+            for b_ in pool:
+                g = [lex[v] for v in a_ + b_]
+                run.add([recovery_scenario(frames[slot]["pre"], g, frames[slot]["suf"], run.rng, "spaces", f"memberlike-rec-{slot}")])
+                g3 = [lex[v] for v in a_ + b_ + a_]
+                if not q:
+                    run.add([recovery_scenario(frames[slot]["pre"], g3, frames[slot]["suf"], run.rng, "mixed", f"memberlike-rec-{slot}")])
     # three fixed instances of the recorded finding (so that it is reported in every tier)
     fr = frames["re1"]
     for g in ([lex["ANNOTATION"], lex["("], lex["IDENT"]], [lex["IDENT"], lex["="], lex["INTEGER"], lex["ANNOTATION"], lex["("], lex["IDENT"]],
@@ -1230,7 +1277,11 @@ def m_c14(kf, fail, sc, evs):
     if "ENUM" not in toks_before or "{" not in toks_before:
         return False
     g = [p[0] for p in pcs[g1 - 1:g2 - 1] if p[0] not in ("WS", "LCOM", "BCOM", "DOC")]
-    for i in range(len(g) - 1):
-        if g[i] == "ANNOTATION" and g[i + 1] == "(" and ")" not in g[i + 2:]:
-            return True
+    # the garbage must END in an open annotation parenthesis holding exactly one complete parameter, so that the
+    # terminating `,` is a legal parameter separator: ... ANNOTATION "(" IDENT   or   ... ANNOTATION "(" IDENT "=" literal
+    lits = ("INTEGER", "FLOAT", "QUOTED_STRING", "BOOLEAN")
+    if len(g) >= 3 and g[-3:-1] == ["ANNOTATION", "("] and g[-1] == "IDENT":
+        return True
+    if len(g) >= 5 and g[-5:-3] == ["ANNOTATION", "("] and g[-3] == "IDENT" and g[-2] == "=" and g[-1] in lits:
+        return True
     return False
